@@ -41,6 +41,7 @@ import NeoModel.Proofs.LedgerWhitelist
 import NeoModel.Proofs.LedgerProduct
 import NeoModel.Proofs.LedgerProductG
 import NeoModel.Proofs.LedgerMgmt
+import NeoModel.Model.Ledger.Reward
 import NeoModel.Generated.MapRanges
 import NeoModel.Generated.CacheWrites
 import NeoModel.Generated.CacheRestore
@@ -361,6 +362,25 @@ theorem gasPerVote_cache_coherent (ops : List GpvOp) (k : Nat) :
     gpvLookup (gpvRun { store := [], cache := [] } ops) k = (aget (gpvRun { store := [], cache := [] } ops).store k).getD 0 :=
   gpvLookup_stored _ (gpvRun_coherent ops _ (by intro k v h; simp [aget] at h)) k
 
+/-- (C01, NEO reward-per-vote records, prefix 23) Whatever a block does to the records — the drops of its
+    transactions, the cache-first accumulation `record += share / votes` of an epoch's first block (the op list
+    `Reward.gpvOpsOfBlock` derives from the natives model, or any other) — the STORED records after it do not depend
+    on which coherent gasPerVoteCache the node holds: the running node's partial cache or the empty cache of a node
+    restarted at any earlier point; and both caches stay coherent. -/
+theorem gasPerVote_records_cache_independent (ops : List GpvOp) (g₁ g₂ : GpvState)
+    (h1 : GpvCoherent g₁) (h2 : GpvCoherent g₂) (hs : g₁.store = g₂.store) :
+    (gpvRun g₁ ops).store = (gpvRun g₂ ops).store ∧ GpvCoherent (gpvRun g₁ ops) ∧ GpvCoherent (gpvRun g₂ ops) :=
+  ⟨gpvRun_store_same ops g₁ g₂ h1 h2 hs, gpvRun_coherent ops g₁ h1, gpvRun_coherent ops g₂ h2⟩
+
+-- non-vacuity: committee [K1 (30M votes), K0 (10M)], one validator, 5 GAS per block: the first block of an epoch adds
+-- 2·R/30M to K1's record and R/10M to K0's (R = voterReward); a replica restarted in between stores the same
+example :
+    let ops := Reward.rewardAux Natives.wCfg { st := Natives.genesisStorage Natives.wCfg Natives.wHolder, c := Natives.genesisCaches Natives.wCfg Natives.wHolder }
+      (Reward.voterReward Natives.wCfg 500000000) 0 [(1, 30000000), (0, 10000000)]
+    ops = [.add 1 1777777777, .add 0 2666666666] ∧
+    (gpvRun { store := [], cache := [] } (ops ++ [.restart] ++ ops)).store = (gpvRun { store := [], cache := [] } (ops ++ ops)).store ∧
+    aget (gpvRun { store := [], cache := [] } (ops ++ [.restart] ++ ops)).store 1 = some 3555555554 := by decide
+
 /-- (C01, cache_coherent: NEO gasPerBlock records, FULL statement, with the guards of setGasPerBlock) From the
     genesis record on, after any history of blocks (any number of setGasPerBlock calls per block, passing or failing
     their range / witness checks, in halting or rolled-back transactions) and restarts, GetGASPerBlock answers for
@@ -501,6 +521,9 @@ def mapRangeClasses : List (String × MapRangeClass) := [
   ("pkg/core/storage/leveldb_store.go:LevelDBStore.PutChangeSet:m", commutativeFold),
   -- SaveStorageBatch / LastBatch: diagnostic dump
   ("pkg/core/storage/memcached_store.go:MemCachedStore.GetBatch:m", notConsensus),
+  -- persist, error path (fix 3a75687): the unflushed changes are moved back, one key per iteration, only if absent
+  ("pkg/core/storage/memcached_store.go:MemCachedStore.persist:tempstore.mem", commutativeFold),
+  ("pkg/core/storage/memcached_store.go:MemCachedStore.persist:tempstore.stor", commutativeFold),
   -- seek snapshots: sorted before merging (performSeek / MemoryStore.seek)
   ("pkg/core/storage/memcached_store.go:MemCachedStore.prepareSeekMemSnapshot:m", sortedAfter),
   ("pkg/core/storage/memory_store.go:MemoryStore.seek:m", sortedAfter),
